@@ -341,6 +341,90 @@ theorem poll_runs_until_blocked (cfg : Cfg) (ops : List Op) (c : Nat) (cl : Call
         (stepS cfg (run cfg ops) (.poll c)).b c cl' = none :=
   TR.Retry.poll_runs_until_blocked (sinv_reachable cfg ops) h
 
+/-! ## the builder: the layer that a chain of setters builds
+
+`build chain` is the configuration of `RetryLayer::builder().s₁.s₂.….build()`, a fold over the setters from the
+builder's defaults. `Setter.slot` names the setting a setter writes: `max_attempts(n)` and `max_attempts_fn(f)` write the
+same one (the source of `max_attempts`), the three back-off setters write the interval function. -/
+
+/-- **`max_attempts(n)` given last is the layer's limit — also after a `max_attempts_fn`.** Whatever stands before it
+(`pre`: any setters, extractors included) and whatever setters of the *other* settings follow it (`post`), the built
+layer has the fixed limit `n`; and `max_attempts_fn(f)` given last makes the limit per request (default `d`), whatever
+fixed limit was given before. With neither, the limit is the default 3, fixed. -/
+theorem builder_max_attempts_last_wins (pre post : List Setter) (n : Nat) (hpost : ∀ s ∈ post, s.slot ≠ 0) :
+    ((build (pre ++ .maxA n :: post)).max = n ∧ (build (pre ++ .maxA n :: post)).dyn = false) ∧
+    ((build (pre ++ .maxFn n :: post)).max = n ∧ (build (pre ++ .maxFn n :: post)).dyn = true) ∧
+    (∀ chain : List Setter, (∀ s ∈ chain, s.slot ≠ 0) → (build chain).max = 3 ∧ (build chain).dyn = false) := by
+  refine ⟨?_, ?_, ?_⟩
+  · rw [build_append_cons]
+    have h := foldl_max_keep post (applySetter (build pre) (.maxA n)) hpost
+    exact ⟨h.1.trans rfl, h.2.trans rfl⟩
+  · rw [build_append_cons]
+    have h := foldl_max_keep post (applySetter (build pre) (.maxFn n)) hpost
+    exact ⟨h.1.trans rfl, h.2.trans rfl⟩
+  · intro chain h
+    exact foldl_max_keep chain defaultCfg h
+
+/-- The back-off function is the one given last (by any of the three back-off setters), wherever the other setters
+stand; without one it is the default: exponential from 100 ms. -/
+theorem builder_backoff_last_wins (pre post : List Setter) (f : Nat → Nat) (hpost : ∀ s ∈ post, s.slot ≠ 1) :
+    (build (pre ++ .backoff f :: post)).backoff = f ∧
+    (∀ chain : List Setter, (∀ s ∈ chain, s.slot ≠ 1) → ∀ k, (build chain).backoff k = 100000 * 2 ^ k) := by
+  constructor
+  · rw [build_append_cons, foldl_backoff_keep _ _ hpost]; rfl
+  · intro chain h k
+    rw [build, foldl_backoff_keep chain defaultCfg h]; rfl
+
+/-- The predicate is the one given last; without one every error is retried. -/
+theorem builder_predicate_last_wins (pre post : List Setter) (p : Nat → Bool) (hpost : ∀ s ∈ post, s.slot ≠ 2) :
+    (build (pre ++ .pred p :: post)).pred = p ∧
+    (∀ chain : List Setter, (∀ s ∈ chain, s.slot ≠ 2) → ∀ k, (build chain).pred k = true) := by
+  constructor
+  · rw [build_append_cons, foldl_pred_keep _ _ hpost]; rfl
+  · intro chain h k
+    rw [build, foldl_pred_keep chain defaultCfg h]; rfl
+
+/-- The budget is the one given last (in the state it was handed over in); without one there is none. -/
+theorem builder_budget_last_wins (pre post : List Setter) (bu : Budget) (b0 : BState) (a : Bool)
+    (hpost : ∀ s ∈ post, s.slot ≠ 3) :
+    ((build (pre ++ .budget bu b0 a :: post)).budget = some bu ∧ (build (pre ++ .budget bu b0 a :: post)).b0 = b0) ∧
+    (∀ chain : List Setter, (∀ s ∈ chain, s.slot ≠ 3) → (build chain).budget = none) := by
+  constructor
+  · rw [build_append_cons]
+    have h := foldl_budget_keep post (applySetter (build pre) (.budget bu b0 a)) hpost
+    exact ⟨h.1.trans rfl, h.2.1.trans rfl⟩
+  · intro chain h
+    exact (foldl_budget_keep chain defaultCfg h).1
+
+/-- **At most `max(1, n)` invocations for the layer built with `max_attempts(n)` last** — for every chain in which
+`max_attempts(n)` is the last setter of the limit (any `max_attempts_fn` extractors before it, any other setters after
+it), every operation sequence and every request, whatever value the request itself carries. -/
+theorem chain_fixed_at_most_max (pre post : List Setter) (n : Nat) (hpost : ∀ s ∈ post, s.slot ≠ 0)
+    (ops : List Op) (c : Nat) :
+    (callsOf c (run (build (pre ++ .maxA n :: post)) ops).log).length ≤ max 1 n := by
+  obtain ⟨⟨hm, hd⟩, _⟩ := builder_max_attempts_last_wins pre post n hpost
+  cases h : lookup (run (build (pre ++ .maxA n :: post)) ops).callers c with
+  | none => simp [no_calls_without_request _ ops c h]
+  | some cl =>
+    obtain ⟨ma, hma⟩ := maxA_origin _ ops c cl h
+    have := at_most_max _ ops c cl h
+    rw [hma, hd, hm] at this
+    simpa using this
+
+/-- … and for the layer built with `max_attempts_fn(f)` last (any fixed limits before it): a request that arrives
+carrying `ma` (none: the extractor's default `d`) is invoked at most `max(1, ma)` times, at least once when it has a
+result. -/
+theorem chain_per_request_at_most_max (pre post : List Setter) (d : Nat) (hpost : ∀ s ∈ post, s.slot ≠ 0)
+    (before after : List Op) (c : Nat) (ma : Option Nat) (plan : List Step)
+    (hnew : lookup (run (build (pre ++ .maxFn d :: post)) before).callers c = none) :
+    (callsOf c (run (build (pre ++ .maxFn d :: post)) (before ++ .arrive c ma plan :: after)).log).length
+      ≤ max 1 (ma.getD d) := by
+  obtain ⟨_, ⟨hm, hd⟩, _⟩ := builder_max_attempts_last_wins pre post d hpost
+  obtain ⟨cl, hl, hma, _⟩ := max_attempts_fixed_at_arrival _ before after c ma plan hnew
+  have := at_most_max _ _ c cl hl
+  rw [hma, hd, hm] at this
+  simpa using this
+
 /-! ## non-vacuity: concrete runs -/
 
 /-- err1 retryable, err2 not; back-off 5·2^k ms; token bucket with a single token -/
@@ -406,5 +490,22 @@ example :
       [.arrive 1 none [⟨0, .err 1⟩, ⟨0, .err 1⟩, ⟨0, .err 1⟩], .poll 1]).log
     = [.innerCall 1 0, .innerDone 1 0 (.err 1), .innerCall 1 1, .innerDone 1 1 (.err 1),
        .result 1 (.inner 1 1)] := by decide
+
+/-- the builder: `max_attempts_fn(|_| 5) … .max_attempts(2)` is a layer with the fixed limit 2 (two calls, not five,
+whatever the request carries); the other order is per request (the request's 4, the extractor's 5 without one); a repeated
+setter overrides; the back-off given last (zero) is the one slept; the empty chain has the defaults -/
+example :
+    let bo0 : Setter := .backoff fun _ => 0
+    let script : List Step := [⟨0, .err 1⟩, ⟨0, .err 1⟩, ⟨0, .err 1⟩, ⟨0, .err 1⟩, ⟨0, .err 1⟩, ⟨0, .err 1⟩]
+    let ops := [Op.arrive 1 none script, .poll 1, .arrive 2 (some 4) script, .poll 2]
+    let calls := fun (chain : List Setter) => (1, 2) |> fun (a, b) =>
+      ((callsOf a (run (build chain) ops).log).length, (callsOf b (run (build chain) ops).log).length)
+    calls [.maxFn 5, .backoff (fun _ => 7000), bo0, .maxA 2] = (2, 2) ∧
+    calls [.maxA 2, bo0, .maxFn 5] = (5, 4) ∧
+    calls [.maxA 7, .maxFn 6, bo0, .maxA 0, .pred (fun _ => true)] = (1, 1) ∧
+    calls [bo0, .maxA 1, .maxA 4] = (4, 4) ∧
+    calls [.pred (fun _ => false), bo0, .maxA 6, .pred (fun k => k == 1)] = (6, 6) ∧
+    ((build []).max, (build []).dyn, (build []).backoff 2, (build []).budget.isSome) = (3, false, 400000, false) := by
+  decide
 
 end TR.Props.C05
